@@ -95,7 +95,15 @@ def build(case):
     return attr, comps, lists, Parent, Child, Sibling
 
 
-def which(lists, lst):
+def which(lists, lst, comps=None):
+    """which declared list is active, judged by CONTENT (list i is declared as [component i]):
+    a change that rewrites a shared list object in place keeps its identity but not its content"""
+    if comps is not None:
+        if lst == []:
+            return None
+        if len(lst) == 1 and lst[0] in comps:
+            return comps.index(lst[0])
+        return 99
     for i, l in lists.items():
         if l is lst:
             return i
@@ -121,7 +129,7 @@ def run_impl(case):
         trace, used = [], []
         for c, v in case["ops"]:
             classes[c].set_version(codec.dec_str(v))
-            trace.append([which(lists, getattr(k, attr)) for k in classes])
+            trace.append([which(lists, getattr(k, attr), comps) for k in classes])
             used.append(used_by_read(case["family"], classes[c], comps))
         return {"trace": trace, "used": used}
     except Exception as e:
